@@ -80,6 +80,7 @@ func (c checkSchema) checkNode(node schema.Node, ss map[string]schema.Type) {
 		c.checkLinksOfNode(node, ss) // can panic
 		c.checkArrayItems(node)
 		c.checkArrayNode(node)
+		c.checkBranchNode(node, ss)
 	case *schema.ObjectNode:
 		c.checkCompatibilityOfConstraints(node)
 		c.checkLinksOfNode(node, ss) // can panic
@@ -122,6 +123,14 @@ func (c checkSchema) checkLiteralNode(node schema.Node, ss map[string]schema.Typ
 		} else {
 			panic(lexeme.NewLexEventError(node.BasisLexEventOfSchemaForNode(), errors.ErrOrRuleSetValidation))
 		}
+	}
+}
+
+// checkBranchNode checks an array EXAMPLE the "or" rule is written on against
+// the alternatives of the rule, as checkLiteralNode does for a literal EXAMPLE.
+func (c checkSchema) checkBranchNode(node schema.Node, ss map[string]schema.Type) {
+	if node.Constraint(constraint.TypesListConstraintType) != nil {
+		c.checkLiteralNode(node, ss)
 	}
 }
 
